@@ -1,6 +1,7 @@
 package main
 
 import (
+	"errors"
 	"bytes"
 	"fmt"
 	"io"
@@ -175,6 +176,13 @@ type Hold struct {
 	relOnce  sync.Once
 	released atomic.Bool
 	parked   atomic.Bool
+	dropped  atomic.Bool // the process died while the operation was outstanding: it never takes effect
+}
+
+// Drop releases the hold; the held operation fails without taking effect (the caller's process "crashed").
+func (h *Hold) Drop() {
+	h.dropped.Store(true)
+	h.Release()
 }
 
 func (h *Hold) Arrived(d time.Duration) bool {
@@ -237,7 +245,8 @@ func snapshotID(rel string, data []byte) uint64 {
 	return jc.Id
 }
 
-func (s *gateLocState) park(op, rel string, id uint64) {
+// park reports whether the operation may take effect.
+func (s *gateLocState) park(op, rel string, id uint64) bool {
 	s.mu.Lock()
 	var h *Hold
 	for _, c := range s.holds {
@@ -252,10 +261,12 @@ func (s *gateLocState) park(op, rel string, id uint64) {
 		h.parked.Store(true)
 		close(h.arrived)
 		<-h.release
+		return !h.dropped.Load()
 	}
+	return true
 }
 
-// Hold makes the next matching Write ("write") or Remove ("remove") park before it takes effect.
+// Hold makes the next matching Write ("write"), Remove ("remove") or listing ("list") park before it takes effect.
 func (g *GateLocation) Hold(op string, match func(rel string, id uint64) bool) *Hold {
 	h := &Hold{op: op, match: match, arrived: make(chan struct{}), release: make(chan struct{})}
 	g.st.mu.Lock()
@@ -321,6 +332,10 @@ func (g *GateLocation) Read(p string) ([]byte, error) {
 }
 
 func (g *GateLocation) List() iter.Seq2[string, error] {
+	g.st.add(LocEvent{Role: g.role, Op: "list-call"})
+	if g.role == "store" {
+		g.st.park("list", "", 0) // a slow listing: the directory is read when the hold is released
+	}
 	g.st.add(LocEvent{Role: g.role, Op: "list"})
 	return g.st.inner.List()
 }
@@ -364,7 +379,10 @@ func (g *GateLocation) Remove(paths ...string) error {
 		g.st.mu.Lock()
 		id := g.st.pathID[rel]
 		g.st.mu.Unlock()
-		g.st.park("remove", rel, id)
+		if !g.st.park("remove", rel, id) {
+			g.st.add(LocEvent{Role: g.role, Op: "remove-lost", Path: rel, ID: id})
+			return errors.New("verif: the process died before the Remove was issued")
+		}
 	}
 	for i, p := range paths {
 		g.st.opMu.Lock()
@@ -432,7 +450,7 @@ func snapshotsIn(img map[string][]byte) (ids []uint64, byID map[uint64]string) {
 func fmtEvents(log []LocEvent, from int, skipReads bool) []string {
 	var out []string
 	for _, e := range log[min(from, len(log)):] {
-		if skipReads && (e.Op == "read" || e.Op == "uri" || e.Op == "list") {
+		if skipReads && (e.Op == "read" || e.Op == "uri" || e.Op == "list" || e.Op == "list-call") {
 			continue
 		}
 		out = append(out, e.String())
